@@ -64,6 +64,9 @@ func Explore(r *engine.Rec, prog rt.Program, o Opts) {
 		threads, judge := prog()
 		ex := rt.RunOnce(rt.Config{Elide: sc.Elide, Race: true, Trace: true, Sleep: sc.Sleep, Installs: sc.Installs}, sc.Choices, threads)
 		r.Evals++
+		if ex.Unmodelled != "" {
+			return
+		}
 		for _, w := range judge(ex) {
 			k, d := split(w)
 			r.Violation(o.SigPrefix+k, d+"\ntrace:\n"+strings.Join(ex.Events, "\n"), sc)
@@ -76,7 +79,11 @@ func Explore(r *engine.Rec, prog rt.Program, o Opts) {
 	outcomes := map[string]bool{}
 	onExec := func(ex *rt.Exec) { outcomes[fmt.Sprint(ex.SortedStuck(), len(ex.Panics))] = true }
 	diverged, globalsReset := false, false
+	unmodelled := ""
 	record := func(st rt.ExploreStats, elide, sleep bool) {
+		if st.Unmodelled != "" {
+			unmodelled = st.Unmodelled
+		}
 		if st.Diverged {
 			diverged = true
 		}
@@ -153,6 +160,11 @@ func Explore(r *engine.Rec, prog rt.Program, o Opts) {
 		if cold >= 0 {
 			r.Add("programs_also_explored_from_a_cold_start", 1)
 		}
+	}
+	if unmodelled != "" {
+		// no verdict for this program: the code under test uses something in a way the runtime model does not cover
+		r.Note("not_modelled", unmodelled)
+		r.Incomplete(fmt.Sprintf("%s: not explored, the runtime model does not cover it: %s", o.Name, unmodelled))
 	}
 	if globalsReset {
 		r.Note("globals_reset", "executions of this program were not reproducible (package-level state survives between executions): the exploration was redone with every package-level variable of the library put back to its initial value before each execution")
